@@ -82,6 +82,9 @@ class Problem:
 
     def logl_coords(self, c):
         f, p, d = self.family, self.par, self.d
+        if self.spec.get('renorm'):
+            # the family is defined on the unit cube but the prior maps to the box [lo, hi]: undo the affine map
+            c = [(c[k] - float(self.lo[k])) / float(self.hi[k] - self.lo[k]) for k in range(d)]
         if f in ('gauss', 'corr'):
             mu, sig = p['mu'], p['sig']
             if f == 'corr':
@@ -295,7 +298,14 @@ def gen_problem(rng, family=None, d=None, prior=None, blobs=None, vectorized=Non
     blobs = blobs if blobs is not None else str(rng.choice(BLOBS))
     vectorized = bool(rng.random() < 0.5) if vectorized is None else bool(vectorized)
     unit_only = family in ('funnel', 'plateau', 'staircase', 'ring', 'periodic', 'constant', 'islands')
-    if unit_only or rng.random() < 0.4:
+    renorm = False
+    if unit_only and prior in ('func_inplace', 'func', 'func_dict') and rng.random() < (1.0 if prior == 'func_inplace' else 0.3):
+        # a non-trivial box also for families that live on the unit cube (the likelihood undoes the map), so that an
+        # in-place prior really changes its argument
+        lo = [float(v) for v in np.round(rng.uniform(-3, 1, d), 2)]
+        hi = [float(l + w) for l, w in zip(lo, np.round(rng.uniform(0.5, 4, d), 2))]
+        renorm = True
+    elif unit_only or (rng.random() < 0.4 and prior != 'func_inplace'):
         lo, hi = [0.0] * d, [1.0] * d
     else:
         lo = [float(v) for v in np.round(rng.uniform(-3, 1, d), 2)]
@@ -337,7 +347,10 @@ def gen_problem(rng, family=None, d=None, prior=None, blobs=None, vectorized=Non
         par.update(mu=mu.tolist(), sig=rng.uniform(0.03, 0.08, d).tolist(), periodic=per)
     elif family == 'constant':
         par['value'] = float(rng.choice([0.0, -3.5]))
-    return dict(family=family, d=d, par=par, prior=prior, blobs=blobs, vectorized=vectorized, lo=lo, hi=hi)
+    out = dict(family=family, d=d, par=par, prior=prior, blobs=blobs, vectorized=vectorized, lo=lo, hi=hi)
+    if renorm:
+        out['renorm'] = True
+    return out
 
 
 def gen_cfg(rng, prob_spec, small=True, networks=None, pool=None, n_batch=None, filepath=None):
@@ -366,9 +379,9 @@ def gen_cfg(rng, prob_spec, small=True, networks=None, pool=None, n_batch=None, 
         discard_exploration=bool(rng.random() < 0.5))
     if prob_spec['family'] == 'periodic':
         per = prob_spec['par']['periodic']
-        cfg['periodic'] = per if rng.random() < 0.8 else None
+        cfg['periodic'] = ([int(v) for v in rng.permutation(per)] if rng.random() < 0.5 else per) if rng.random() < 0.8 else None
     elif rng.random() < 0.15:
-        cfg['periodic'] = sorted(int(v) for v in rng.choice(d, int(rng.integers(1, d + 1)), replace=False))
+        cfg['periodic'] = [int(v) for v in rng.choice(d, int(rng.integers(1, d + 1)), replace=False)]
     if prob_spec['family'] in ('ring',) and cfg['n_networks'] == 0:
         cfg['n_points_min'] = d + 5          # see DESIGN C04: ring without networks needs small ellipsoids
     if prob_spec['family'] == 'constant':
